@@ -281,6 +281,31 @@ func c13Body(c *mc.Ctx, media, scheme string, maxN int) {
 	for _, got := range []*signature.EnvelopeContent{vc, cc} {
 		c13Compare(c, media, cont, got)
 	}
+	// one parsed object read several times (Content, Verify, Content): every reading reports the same attributes
+	if len(c.Fails) == 0 {
+		func() {
+			defer func() {
+				if r := recover(); r != nil {
+					c.Fail("C13 panic", "repeated reading of one object: %v", r)
+				}
+			}()
+			e, err := signature.ParseEnvelope(media, env)
+			if err != nil {
+				return
+			}
+			for k, read := range []func() (*signature.EnvelopeContent, error){e.Content, e.Verify, e.Content, e.Verify} {
+				got, err := read()
+				if err != nil {
+					c.Fail(fmt.Sprintf("C13 %s repeated reading of one object fails", mediaShort(media)), "reading %d: %v", k+1, err)
+					return
+				}
+				c13Compare(c, media, cont, got)
+				if len(c.Fails) > 0 {
+					return
+				}
+			}
+		}()
+	}
 	// The library builds the attribute list by iterating over a Go map, whose order differs from call to call. The envelope is
 	// therefore parsed and read several more times within this one execution, so that a behaviour that depends on that order shows
 	// (nearly) every time the execution is run; each reading is judged like the first.
